@@ -681,6 +681,48 @@ def c_inline_new_scalars(f, recorded):
     return done
 
 
+def c_integer_abs_on_double(f):
+    """calls of the integer abs() whose argument has floating type (C converts the argument to int first, so |x| < 1 becomes 0):
+    list of (line, text)"""
+    types = {pn: _base_type(pt) for pt, pn in f.params}
+    ptr = {pn: ('double' if 'double' in pt or 'float' in pt else 'int') for pt, pn in f.params if '*' in pt}
+    for st in f.walk():
+        if isinstance(st, CDecl):
+            if st.pointer or st.array:
+                ptr[st.name] = 'double' if ('double' in st.ctype or 'float' in st.ctype) else 'int'
+                types[st.name] = None
+            else:
+                types[st.name] = _base_type(st.ctype)
+
+    def ty(e):
+        if isinstance(e, ast.Constant):
+            return 'int' if isinstance(e.value, int) else 'double'
+        if isinstance(e, ast.Name):
+            return types.get(e.id)
+        if isinstance(e, ast.Subscript) and isinstance(e.value, ast.Name):
+            return ptr.get(e.value.id)
+        if isinstance(e, ast.UnaryOp):
+            return ty(e.operand)
+        if isinstance(e, ast.BinOp):
+            a, b = ty(e.left), ty(e.right)
+            if 'double' in (a, b):
+                return 'double'
+            return 'int' if a == b == 'int' else None
+        if isinstance(e, ast.Call) and isinstance(e.func, ast.Name):
+            if e.func.id in ('exp', 'log', 'sqrt', 'pow', 'fabs', 'floor', 'ceil', 'lgamma', 'tgamma', 'sin', 'cos', 'log1p', 'expm1', 'fmax', 'fmin'):
+                return 'double'
+        return None
+    out = []
+    for st in f.walk():
+        for h, a in _expr_fields(st):
+            e = getattr(h, a)
+            if isinstance(e, ast.AST):
+                for n in ast.walk(e):
+                    if isinstance(n, ast.Call) and isinstance(n.func, ast.Name) and n.func.id in ('abs', 'labs') and len(n.args) == 1 and ty(n.args[0]) == 'double':
+                        out.append((st.line, unparse(n)))
+    return out
+
+
 def c_alpha_normalise(f):
     global _C_TABLE
     if _C_TABLE is None:
